@@ -129,9 +129,22 @@ def line_items(draw, udp=False):
   return items
 
 
+def with_repeats(draw, items):
+  """The same item (well-formed or malformed) sent again later on the connection: a client that retries, a
+  broken client that keeps sending the same bad line."""
+  items = list(items)
+  for _ in range(draw(st.integers(0, 3))):
+    i = draw(st.integers(0, len(items) - 1))
+    if items[i]['kind'] not in ('good', 'bad'):
+      continue
+    j = draw(st.sampled_from([i + 1, i + 1, draw(st.integers(i + 1, len(items)))]))
+    items.insert(j, dict(items[i], expected=list(items[i]['expected'])))
+  return items
+
+
 @st.composite
 def line_cases(draw):
-  items = draw(line_items())
+  items = with_repeats(draw, draw(line_items()))
   total = sum(len(i['hex']) // 2 + 1 for i in items)
   cuts = draw(st.lists(st.integers(1, max(1, total - 1)), max_size=8))
   return {'listener': 'line', 'items': items, 'cuts': sorted(set(cuts)), 'lists': draw(st.integers(0, 3)) == 0}
@@ -141,7 +154,7 @@ def line_cases(draw):
 def udp_cases(draw):
   dgs = []
   for _ in range(draw(st.integers(1, 3))):
-    items = draw(line_items(udp=True))
+    items = with_repeats(draw, draw(line_items(udp=True)))
     dgs.append({'items': items, 'final_eol': draw(st.booleans())})
   return {'listener': 'udp', 'datagrams': dgs, 'lists': draw(st.integers(0, 3)) == 0}
 
@@ -265,7 +278,7 @@ def pickle_frame_item(draw):
 
 @st.composite
 def pickle_cases(draw):
-  items = draw(st.lists(pickle_frame_item(), min_size=1, max_size=7))
+  items = with_repeats(draw, draw(st.lists(pickle_frame_item(), min_size=1, max_size=7)))
   total = sum(len(i['hex']) // 2 for i in items)
   cuts = draw(st.lists(st.integers(1, max(1, total - 1)), max_size=8))
   return {'listener': 'pickle', 'items': items, 'cuts': sorted(set(cuts)), 'lists': draw(st.integers(0, 3)) == 0}
@@ -350,12 +363,43 @@ def reset_for(case):
   return b
 
 
-def run_tcp(ctx, case, cuts, label):
+def run_tcp(ctx, case, cuts, label, neighbour=False):
   b = reset_for(case)
   rec = env.Recorder(b.events.metricReceived)
   lst = wire.Listener(case['listener'])
-  lst.feed(build_stream(case), cuts)
-  got = list(rec.items)
+  if not neighbour:
+    lst.feed(build_stream(case), cuts)
+    got = list(rec.items)
+  else:
+    # another connection of the same listener sends its own well-formed datapoints in between this connection's
+    # segments (and an earlier one ended mid-item): it gets them through whatever this connection receives
+    kind = case['listener']
+    prev = wire.Listener(kind)
+    prev.feed(b'previous.partial 1 15' if kind == 'line' else struct.pack('!I', 100) + b'\x80\x02')
+    prev.close()
+    nb = wire.Listener(kind)
+    segs_a = wire.segments(build_stream(case), cuts)
+    segs_b = c01.neighbour_stream(kind)
+    for i in range(max(len(segs_a), len(segs_b))):
+      if i < len(segs_a) and not lst.escaped and not lst.transport.disconnecting:
+        lst.feed(segs_a[i])
+      if i < len(segs_b) and not nb.escaped and not nb.transport.disconnecting:
+        nb.feed(segs_b[i])
+    allgot = list(rec.items)
+    is_nb = lambda g: isinstance(g[0], str) and g[0].startswith('neighbour.')   # noqa
+    got = [g for g in allgot if not is_nb(g)]
+    theirs = []
+    for g in allgot:
+      if is_nb(g):
+        try:
+          theirs.append((g[0], float(g[1][0]), float(g[1][1])))
+        except Exception:  # noqa
+          theirs.append(g)
+    if nb.escaped or nb.transport.disconnecting or theirs != c01.NEIGHBOUR:
+      ctx.fail('C11:%s-other-connection-affected' % kind, '%s [%s]: a neighbouring connection sent %r; delivered %r, escaped %r, '
+               'closed %s' % (kind, label, c01.NEIGHBOUR, theirs, nb.escaped[:1], nb.transport.disconnecting), case, 'differential')
+      return False
+    nb.close()
   ok = judge(ctx, case, case['items'], got, lst, label, '')
   if not lst.escaped:
     lst.close()
@@ -466,6 +510,10 @@ def execute(ctx, case):
   if not run_tcp(ctx, case, [], 'whole'):
     return
   ctx.evaluations += 1
+  if not any('neighbour.' in repr(e) or 'previous.' in repr(e) for it in case['items'] for e in it['expected']):
+    if not run_tcp(ctx, case, cuts, 'two connections, cuts=%s' % cuts, neighbour=True):
+      return
+    ctx.evaluations += 1
   if len(data) <= 3000:
     if not run_tcp(ctx, case, list(range(1, len(data))), 'byte-by-byte'):
       return
